@@ -128,31 +128,6 @@ deriving DecidableEq, Repr
 /-- the 8 bytes `runWfUntilBarrier` fetches at `pc` (`base` = address of `co.Data`) -/
 def fetch (P : Program) (base pc : Nat) : List Nat := (P.code.drop (pc - base)).take 8
 
-/-! ### one instruction outside the C03V specification
-
-`v_rcp_iflag_f32` (VOP1 opcode 35; emu/aluvop1.go `runVRCPIFLAGF32`: `dst = 1 / src` in float32) is not in the
-C03V subset (its reference arithmetic has no division).  The shipped `matrixTranspose` kernel needs it for
-`(gix + giy) % num_of_blocks_x`, so the emulator carries a local definition: the exactly rounded reciprocal
-(quotient with 80 extra bits and a sticky bit, then `C03V.F.round`, ties to even).  It is consulted only where
-`C03V.exec` answers `none`; tied by the `c01 emu` cases of harness/c01_tt.go. -/
-
-/-- exactly rounded float32 reciprocal on bit patterns -/
-def rcp32 (bits : Nat) : Nat :=
-  match C03V.F.unpack C03V.F.f32 bits with
-  | .nan => C03V.F.f32.qnan
-  | .inf s => if s then C03V.F.f32.signBit else 0
-  | .fin s m e =>
-    if m == 0 then C03V.F.f32.infBits s
-    else C03V.F.round C03V.F.f32 s (2 * (2 ^ 80 / m) + (if 2 ^ 80 % m == 0 then 0 else 1)) (-e - 81)
-
-/-- instructions the emulator knows beyond `C03V.exec`: `v_rcp_iflag_f32_e32` -/
-def extExec (st : St) (bs : List Nat) : Option (List Wr) :=
-  let w0 := C03V.leWord bs 0
-  if C03V.field w0 25 31 == 0x3f && C03V.field w0 9 16 == 35 then
-    some ((C03V.activeLanes st).flatMap fun l =>
-      [(Cell.v (C03V.field w0 17 24) l, rcp32 (C03V.lo32 (st.src (C03V.field w0 0 8) l 32 (C03V.leWord bs 1) false)))])
-  else none
-
 /-- loop body of `runWfUntilBarrier`: fetch, decode, advance PC, then S_BARRIER / S_ENDPGM / execute.
     `st.mem` / `st.lds` hold the global memory and the work-group's LDS while a wavefront runs. -/
 def step (P : Program) (base : Nat) (st : St) : Except String (St × Ctl) :=
@@ -171,10 +146,7 @@ def step (P : Program) (base : Nat) (st : St) : Except String (St × Ctl) :=
       | some st2 => .ok (st2, .next)
     else
       match C03V.exec P.cdna3 st1 (buf.take i.size) with
-      | none =>
-        match extExec st1 (buf.take i.size) with
-        | none => .error ("nospec:" ++ i.name)
-        | some ws => .ok (applyWrs st1 ws, .next)
+      | none => .error ("nospec:" ++ i.name)
       | some (_, ws) => .ok (applyWrs st1 ws, .next)
 
 /-- `runWfUntilBarrier`: at most `fuel` instructions -/
